@@ -70,15 +70,20 @@ Proof.
       exists (Some v :: vs), (p1 ++ p2). rewrite <- app_assoc in Hfs. cbn [app] in Hfs.
       split; [exact Hfs|]. split; [now rewrite app_assoc|].
       cbn [enc_fields].
-      rewrite Hfs at 1 2. rewrite field_present_prefix by exact Hfd. rewrite Ep.
-      rewrite Hfs at 1. rewrite eval_args_prefix by (unfold field_ok in Hfd; now apply andb_true_iff in Hfd as [_ ?]).
-      rewrite He1. cbn [bind_opt]. rewrite He2. reflexivity.
+      assert (E1 : field_present ps fs fd = field_present ps acc fd)
+        by (rewrite Hfs; apply field_present_prefix; exact Hfd).
+      assert (E2 : eval_args ps fs (f_args fd) = eval_args ps acc (f_args fd)).
+      { rewrite Hfs. apply eval_args_prefix. unfold field_ok in Hfd. now apply andb_true_iff in Hfd as [_ ?]. }
+      rewrite E1, Ep, E2, He1. cbn [bind_opt]. rewrite He2. reflexivity.
     + assert (Hok' : fields_ok (length (acc ++ [None])) fds = true)
         by (rewrite app_length; cbn [length]; rewrite Nat.add_1_r; exact Hrest).
       destruct (IH (acc ++ [None]) b fs rest Hb Hok' H) as [vs [p2 [Hfs [-> He2]]]].
       exists (None :: vs), p2. rewrite <- app_assoc in Hfs. cbn [app] in Hfs.
       split; [exact Hfs|]. split; [reflexivity|].
-      cbn [enc_fields]. rewrite Hfs at 1. rewrite field_present_prefix by exact Hfd. rewrite Ep. exact He2.
+      cbn [enc_fields].
+      assert (E1 : field_present ps fs fd = field_present ps acc fd)
+        by (rewrite Hfs; apply field_present_prefix; exact Hfd).
+      rewrite E1, Ep. exact He2.
 Qed.
 
 (** ** elements *)
@@ -171,7 +176,7 @@ Proof.
     { intros b' Hb' Hd.
       destruct (dec_fields (dec1 fuel san s) ps fds [] b') as [[[fs r]| |]|] eqn:Ed; try discriminate.
       injection Hd as <- <-.
-      destruct (dec_fields_canonical _ _ ps IH fds [] b' fs r Hb' Hfds Ed) as [vs [pfx [Hfs [-> He]]]].
+      destruct (dec_fields_canonical (fun t' b0 ps' v' => enc1 false s t' b0 ps' v') _ ps IH fds [] b' fs r Hb' Hfds Ed) as [vs [pfx [Hfs [-> He]]]].
       cbn [app] in Hfs. subst vs. exists fs, pfx. repeat split; auto. }
     destruct bare.
     + destruct (Hgo b Hb H) as [fs [body [-> [-> He]]]].
@@ -193,7 +198,7 @@ Proof.
     apply andb_true_iff in Hokv as [_ Hfds].
     destruct (dec_fields (dec1 fuel san s) ps fds [] b') as [[[fs r]| |]|] eqn:Ed; try discriminate.
     injection H as <- <-.
-    destruct (dec_fields_canonical _ _ ps IH fds [] b' fs r Hb' Hfds Ed) as [vs [pfx [Hfs [-> He]]]].
+    destruct (dec_fields_canonical (fun t' b0 ps' v' => enc1 false s t' b0 ps' v') _ ps IH fds [] b' fs r Hb' Hfds Ed) as [vs [pfx [Hfs [-> He]]]].
     cbn [app] in Hfs. subst vs.
     exists (nat_w tg ++ pfx). split; [now rewrite app_assoc|].
     cbn [enc1]. rewrite Et, Hn, Hs, He. reflexivity.
@@ -225,9 +230,51 @@ Proof.
       destruct (Hel _ b Hb H) as [es [body [-> [Hlen [-> He]]]]].
       exists body. split; [reflexivity|].
       cbn [enc1]. rewrite Et. cbn [negb]. rewrite He. cbn [bind_opt sane_ok]. rewrite Hlen, N.eqb_refl. reflexivity.
-    + destruct (san && negb (check_length_sanity b c 4)); [discriminate|].
-      destruct (Hel _ b Hb H) as [es [body [-> [Hlen [-> He]]]]].
+    + destruct (Hel _ b Hb H) as [es [body [-> [Hlen [-> He]]]]].
       exists body. split; [reflexivity|].
       cbn [enc1]. rewrite Et. cbn [negb]. rewrite He. cbn [bind_opt sane_ok]. rewrite Hlen, N.eqb_refl. reflexivity.
   - exfalso. eapply no_dict_lookup; eauto.
 Qed.
+
+(** ** named rejection lemmas used by Props/C02.v *)
+Local Transparent nat_w long_w.
+Lemma c02_unknown_union_tag_rejected : forall san s t vars tag fuel ps r,
+  nth_error s t = Some (TUnion vars) -> tag < 4294967296 ->
+  find_variant s vars tag 0 = None ->
+  dec1 (S fuel) san s t false ps (nat_w tag ++ r) = Some Reject.
+Proof.
+  intros san s t vars tag fuel ps r Ht Htag Hf. cbn [dec1]. rewrite Ht. cbn [negb].
+  rewrite nat_roundtrip by (cbn; lia). now rewrite Hf.
+Qed.
+
+Lemma c02_wrong_struct_tag_rejected : forall san s t tag fds x fuel ps r,
+  nth_error s t = Some (TStruct tag fds) -> x < 4294967296 -> x <> tag ->
+  dec1 (S fuel) san s t false ps (nat_w x ++ r) = Some Reject.
+Proof.
+  intros san s t tag fds x fuel ps r Ht Hx Hne. cbn [dec1]. rewrite Ht.
+  rewrite nat_roundtrip by (cbn; lia).
+  destruct (x =? tag) eqn:E; [apply N.eqb_eq in E; contradiction|reflexivity].
+Qed.
+
+Lemma c02_bad_bool_tag_rejected : forall ftag ttag x r,
+  x < 4294967296 -> x <> ftag -> x <> ttag ->
+  dec_prim (PBool ftag ttag) (nat_w x ++ r) = Reject.
+Proof.
+  intros ftag ttag x r Hx H1 H2. cbn [dec_prim]. unfold bool1_r.
+  rewrite nat_roundtrip by (cbn; lia).
+  destruct (x =? ftag) eqn:E1; [apply N.eqb_eq in E1; contradiction|].
+  destruct (x =? ttag) eqn:E2; [apply N.eqb_eq in E2; contradiction|reflexivity].
+Qed.
+
+Lemma c02_string_nonminimal_medium_rejected : forall l r,
+  l <= tinyStringLen -> dec_prim PString (mediumStringMarker :: le_bytes 3 l ++ r) = Reject.
+Proof. intros l r H. cbn [dec_prim]. now rewrite str1_rejects_nonminimal_medium. Qed.
+
+Lemma c02_string_nonminimal_huge_rejected : forall l r,
+  l <= maxMediumStringLen -> dec_prim PString (hugeStringMarker :: le_bytes 7 l ++ r) = Reject.
+Proof. intros l r H. cbn [dec_prim]. now rewrite str1_rejects_nonminimal_huge. Qed.
+
+Lemma c02_string_bad_padding_rejected : forall s h p pad' rest,
+  str1_hdr (lenN s) = Some (h, p) -> lenN pad' = padding_len p -> all_zero pad' = false ->
+  dec_prim PString (h ++ s ++ pad' ++ rest) = Reject.
+Proof. intros. cbn [dec_prim]. now rewrite (str1_bad_padding_rejected s h p pad' rest). Qed.
